@@ -167,6 +167,22 @@ func (c *c14) matrixItems(cx *Ctx) []*Item {
 		items = append(items, c14Item(pl, c14MatrixFiles, &c14Meta{Family: "matrix", N: 2, Procs: procs, Layout: &lay},
 			"isolation matrix: "+m.Name+" in I1 x observer battery in I2"))
 	}
+	// the standard streams, with interpreters that own a reader and a writer and with interpreters that have none
+	for vi, nilIO := range []bool{false, true} {
+		for i, m := range c14StdMutators {
+			r := cx.Rng(fmt.Sprintf("c14/stdmatrix/%d/%d", vi, i))
+			scripts, lay := c14MatrixScriptsOf(m, c14StdObservers, nilIO)
+			procs := c14Procs[(i+vi)%len(c14Procs)]
+			what := "own reader and writer"
+			if nilIO {
+				what = "prolog.New(nil, nil)"
+			}
+			pl := &proto.ConcPayload{Procs: procs, Reps: 3, Tag: fmt.Sprintf("zq%ds%d%d", cx.Seed%1000, vi, i), Seq: true, Scripts: scripts,
+				Micro: 2, Batch: 3, Private: 2, Vars: 32, Sched: 32, Seed: r.Uint64(), Budget: 400_000}
+			items = append(items, c14Item(pl, c14MatrixFiles, &c14Meta{Family: "matrix", N: 2, Procs: procs, Layout: &lay},
+				"isolation matrix (standard streams, "+what+"): "+m.Name+" in I1 x observer battery in I2"))
+		}
+	}
 	return items
 }
 
